@@ -127,7 +127,11 @@ impl EventSource for PingSource {
     {
         self.event
             .process_events(readiness, token, |_, fd| {
+                #[cfg(calloop_verif)]
+                crate::verif::yield_point("ping.drain.before");
                 let counter = drain_ping(fd.as_fd())?;
+                #[cfg(calloop_verif)]
+                crate::verif::yield_point("ping.drain.after");
 
                 // If the LSB is set, it means we were closed. If anything else
                 // is also set, it means we were pinged. The two are not
@@ -175,9 +179,13 @@ pub struct Ping {
 impl Ping {
     /// Send a ping to the `PingSource`.
     pub fn ping(&self) {
+        #[cfg(calloop_verif)]
+        crate::verif::yield_point("ping.write.before");
         if let Err(e) = send_ping(self.event.0.as_fd(), INCREMENT_PING) {
             warn!("Failed to write a ping: {e:?}");
         }
+        #[cfg(calloop_verif)]
+        crate::verif::yield_point("ping.write.after");
     }
 }
 
@@ -188,6 +196,8 @@ struct FlagOnDrop(Arc<OwnedFd>);
 
 impl Drop for FlagOnDrop {
     fn drop(&mut self) {
+        #[cfg(calloop_verif)]
+        crate::verif::yield_point("ping.close.before");
         if let Err(e) = send_ping(self.0.as_fd(), INCREMENT_CLOSE) {
             warn!("Failed to send close ping: {e:?}");
         }
